@@ -53,3 +53,24 @@ def replay_discounted(model, obligation):
     bad = host.is_up is not True or bool(told)
     return {'reproduced': bad, 'detail': 'DOWN signal for a host a session still has 2 open connections to (discounted): is_up=%r afterwards, told %r; a peer that still serves '
             'requests but is marked down is left out of the schema-agreement question' % (host.is_up, told)}
+
+
+def replay_error_path(model, obligation):
+    """real refresh_schema_and_set_result when the schema refresh raises"""
+    cl = rf.load_cluster()
+    results, submitted = [], []
+    cc = types.SimpleNamespace(refresh_schema=lambda **k: None)
+
+    def boom(connection, **k):
+        raise Exception('connection lost')
+    cc._refresh_schema = boom
+    fut = types.SimpleNamespace(is_schema_agreed=False, session=types.SimpleNamespace(submit=lambda fn, *a, **k: submitted.append(fn)),
+                                _set_final_result=results.append)
+    raised = None
+    try:
+        cl.refresh_schema_and_set_result(cc, fut, None)
+    except Exception as e:
+        raised = e
+    bad = raised is not None or results != [None] or fut.is_schema_agreed is not False or len(submitted) != 1
+    return {'reproduced': bad, 'detail': 'schema refresh fails after a schema change: raised %r, request completed %d times, is_schema_agreed %r, refreshes rescheduled %d'
+            % (raised, len(results), fut.is_schema_agreed, len(submitted))}
